@@ -127,6 +127,9 @@ func (p *param) fromText(text []byte) error {
 	if err != nil {
 		return err
 	}
+	if len(data) > 65535 {
+		return fmt.Errorf("value for %s does not fit in 65535 bytes", k)
+	}
 
 	p.value = data
 	p.keynum = knum
@@ -180,7 +183,11 @@ func (l *ParamList) FromText(rawparams []byte) error {
 	//     b. the mandatory keys are all available in this list
 	text := bytes.Split(rawparams, paramDelim)
 	seen := make(map[paramNum]int)
-	for idx := 0; idx < len(text) && len(text[idx]) > 0; idx++ {
+	for idx := 0; idx < len(text); idx++ {
+		if len(text[idx]) == 0 {
+			// empty segment (";;", leading or trailing ";")
+			continue
+		}
 		p := param{}
 		err := p.fromText(text[idx])
 		if err != nil {
@@ -190,7 +197,7 @@ func (l *ParamList) FromText(rawparams []byte) error {
 		if presence {
 			return fmt.Errorf("error parsing %s: keys have to be unique", text[idx])
 		}
-		seen[p.keynum] = idx
+		seen[p.keynum] = len(*l)
 		*l = append(*l, p)
 	}
 
